@@ -167,7 +167,22 @@ def p1_binding_and_renaming(ctx: Ctx):
     ctx.check('self.gensym.reserve(*def_use.names())' in norm(fn, 40000), INLINE, fn, q, 'names of a recursively inlined callee are reserved too', 'reservation dropped')
     # free variables: a clash between caller and callee environments raises
     clash = [s for s in ast.walk(fn) if isinstance(s, ast.If) and 'e.fn.env.get(str(name))' in norm(s.test) and 'val' in {x.id for x in ast.walk(s.test) if isinstance(x, ast.Name)}]
-    ctx.check(len(clash) == 1 and isinstance(clash[0].body[0], ast.Raise), INLINE, fn, q, 'conflicting free variables are refused (raise)', 'conflict check changed')
+    # (or kept apart: the callee's value is carried under a fresh name, which the spliced body is renamed to and under which
+    # the value enters the caller's environment -- never two values under one name)
+    def handled(i: ast.If) -> bool:
+        first = [s_ for s_ in i.body if not (isinstance(s_, ast.Expr) and isinstance(s_.value, ast.Constant))]
+        if first and isinstance(first[0], ast.Raise):
+            return True
+        moves = [s_ for s_ in first if isinstance(s_, ast.Assign) and isinstance(s_.targets[0], ast.Subscript) and norm(s_.targets[0].slice) == 'name'
+                 and isinstance(s_.value, ast.Call) and (call_name(s_.value) or '').endswith('gensym.refresh')]
+        if not moves:
+            return False
+        table = norm(moves[0].targets[0].value)
+        renamed = any(call_name(k) == 'RenameTarget.apply' and len(k.args) == 2 and norm(k.args[1]) == table for k in calls_in(fn))
+        carried = any(isinstance(s_, ast.Assign) and isinstance(s_.targets[0], ast.Subscript) and norm(s_.targets[0].slice) == 'str(new)' and 'str(old)' in norm(s_.value) for s_ in ast.walk(fn))
+        return renamed and carried
+    ctx.check(len(clash) == 1 and handled(clash[0]), INLINE, clash[0] if clash else fn, q, 'a callee value captured under a name that already holds another value is refused, or carried under a fresh name',
+              'the two values are merged under one name: the spliced body of the second callee reads the first callee\'s value')
     # the return value is bound to a fresh temporary and that temporary replaces the call
     rets = [s for s in walk_no_nested(fn) if isinstance(s, ast.Return)]
     ctx.check("t = self.gensym.fresh('t')" in norm(fn, 40000) and norm(rets[-1].value) == 'Var(t, e.loc)', INLINE, fn, q,
@@ -271,7 +286,9 @@ def p4_captured_names(ctx: Ctx):
     guard = None
     for lp in loops:
         for s in ast.walk(lp):
-            if isinstance(s, ast.If) and any(isinstance(x, ast.Raise) for x in s.body) and 'e.fn.env.get(str(name))' in norm(s.test):
+            # (the guard of whatever keeps two values apart: a refusal, or the move of the callee's value to a fresh name)
+            if isinstance(s, ast.If) and 'e.fn.env.get(str(name))' in norm(s.test) and (
+                    any(isinstance(x, ast.Raise) for x in s.body) or any(isinstance(x, ast.Assign) and (call_name(x.value) or '').endswith('gensym.refresh') for x in s.body)):
                 guard = s
     if guard is None:
         raise ShapeError('_visit_call: the conflicting-free-variable refusal was not found')
@@ -593,7 +610,9 @@ MUTANTS = [
     Mutant('args-bound-after-body', INLINE, "        # bind the return value to a fresh variable and splice into the current block\n        t = self.gensym.fresh('t')\n        _replace_ret(ast.body, t)",
            "        t = self.gensym.fresh('t')", 'C09.P1'),
     Mutant('callee-locals-not-renamed', INLINE, "            if isinstance(d, AssignDef) and not d.is_free:\n                subst[d.name] = self.gensym.refresh(d.name)", "            if False:\n                subst[d.name] = self.gensym.refresh(d.name)", 'C09.P1'),
-    Mutant('free-var-clash-ignored', INLINE, "                if not _same_captured(val, e.fn.env.get(str(name))):\n                    raise RuntimeError(f'cannot inline function `{e.fn.name}` due to conflicting free variable `{name}`')", "                pass", 'C09.P1'),
+    Mutant('free-var-clash-ignored', INLINE, "                if not _same_captured(val, e.fn.env.get(str(name))):\n                    # a callee inlined before this one captured another value\n                    # under this name: this one's is carried under a name of its own\n                    moved[name] = self.gensym.refresh(name)", "                pass", 'C09.P1'),
+    Mutant('moved-capture-not-renamed-in-the-body', INLINE, "            ast = RenameTarget.apply(FuncDef(ast.name, ast.args, ast.body, meta, loc=ast.loc), moved)\n", "            ast = FuncDef(ast.name, ast.args, ast.body, meta, loc=ast.loc)\n", 'C09.P1',
+           'the value is carried under a fresh name that the spliced body never reads'),
     Mutant('index-before-refusal', INLINE, "        # a refusal is not a site, so it takes no index\n        reason = _refuses(\n            e, in_while_cond=ctx.in_while_cond, in_conditional=ctx.in_conditional,\n",
            "        self.site_idx += 0\n        idx0 = self.site_idx\n        reason = _refuses(\n            e, in_while_cond=False, in_conditional=None,\n", 'C09.G1'),
     Mutant('lift-reemits-constructor', LIFT, "self.name_to_expr[name] = ForeignVal(eval_info.by_expr[e], e.loc)", "self.name_to_expr[name] = e", 'C09.G2',
